@@ -432,10 +432,16 @@ fn body_tokens(lines: &[gen::GLine]) -> Vec<u32> {
 }
 
 pub fn gen_scenario(seed: u64, idx: usize, big: bool) -> Scenario {
+    gen_scenario_ext(seed, idx, big, false)
+}
+
+pub fn gen_scenario_ext(seed: u64, idx: usize, big: bool, big_stderr: bool) -> Scenario {
     let mut rng = Rng::new(mix(seed, &[tag("C18"), tag("scenario"), idx as u64]));
     let rng = &mut rng;
     let kind_roll = rng.below(100);
-    let kind = if kind_roll < 40 {
+    let kind = if big_stderr {
+        "wrapped"
+    } else if kind_roll < 40 {
         "stdin"
     } else if kind_roll < 55 {
         "diff2"
@@ -552,7 +558,11 @@ pub fn gen_scenario(seed: u64, idx: usize, big: bool) -> Scenario {
                 _ => (diff, tokens.clone()),
             };
             tokens = toks;
-            let stderr_len = *rng.pick(&[0usize, 0, 40, 400, 4000]);
+            // up to and beyond the capacity of a pipe (64 KiB): the child must never block on stderr
+            let stderr_len = if big_stderr { *rng.pick(&[70_000usize, 200_000]) } else { *rng.pick(&[0usize, 0, 40, 400, 4000, 70_000]) };
+            if stderr_len >= 65_536 {
+                sub = format!("{}-stderr>=64k", sub);
+            }
             let mut stderr = String::new();
             let mut i = 0;
             while stderr.len() < stderr_len {
@@ -1007,6 +1017,11 @@ pub fn main_c18(env: &Env, tier: &str, seed: u64, replay: Option<&str>) -> i32 {
 fn fixed_scenarios(seed: u64) -> Vec<Scenario> {
     // deterministic coverage floor: each one-shot flag once, stdin diff in each paging mode with default pager
     let mut v = Vec::new();
+    for j in 0..2 {
+        let mut s = gen_scenario_ext(seed, 3_000_000 + j, false, true);
+        s.name = format!("fixed-bigstderr{}", j);
+        v.push(s);
+    }
     let mut i = 2_000_000;
     let mut seen: BTreeSet<String> = BTreeSet::new();
     while seen.len() < 10 + 7 && i < 2_000_400 {
